@@ -27,6 +27,7 @@ type watchRoles struct {
 	opTable  *ssa.Global            // map[fsnotify.Op]string
 	evLoop   *an.Loop               // the loop that receives from fsnotify's Events channel
 	loopFn   *ssa.Function
+	pollFn   *ssa.Function       // helper of the loop that receives the event, when the receive is not in the loop itself
 	launch   ssa.CallInstruction // the instruction in the event loop that starts the handler
 	handle   *ssa.Function
 }
@@ -80,21 +81,47 @@ func resolveWatch(c *an.Ctx) *watchRoles {
 		fns = append(fns, f)
 	}
 	sort.Slice(fns, func(i, j int) bool { return fns[i].String() < fns[j].String() })
+	receives := func(in ssa.Instruction) bool {
+		switch x := in.(type) {
+		case *ssa.Select:
+			for _, stt := range x.States {
+				if stt.Dir == types.RecvOnly && an.FieldProv(stt.Chan) == "Watcher.Events" {
+					return true
+				}
+			}
+		case *ssa.UnOp:
+			if x.Op == token.ARROW && an.FieldProv(x.X) == "Watcher.Events" {
+				return true
+			}
+		}
+		return false
+	}
+	fnReceives := func(g *ssa.Function) bool {
+		found := false
+		for h := range p.Reach([]*ssa.Function{g}, func(e an.CallEdge) bool { return e.Kind == an.EdgeCall && wr.inW(e.Callee) }) {
+			an.EachInstr(h, func(in ssa.Instruction) {
+				if receives(in) {
+					found = true
+				}
+			})
+		}
+		return found
+	}
 	for _, f := range fns {
 		for _, l := range an.Loops(f) {
 			recv := false
+			var via *ssa.Function
 			for b := range l.Blocks {
 				for _, in := range b.Instrs {
-					switch x := in.(type) {
-					case *ssa.Select:
-						for _, stt := range x.States {
-							if stt.Dir == types.RecvOnly && an.FieldProv(stt.Chan) == "Watcher.Events" {
-								recv = true
+					if receives(in) {
+						recv = true
+					}
+					// the receive may sit in a helper the loop calls on every pass
+					if call, ok := in.(*ssa.Call); ok && !recv {
+						for _, callee := range p.Callees(&call.Call) {
+							if wr.inW(callee) && fnReceives(callee) {
+								recv, via = true, callee
 							}
-						}
-					case *ssa.UnOp:
-						if x.Op == token.ARROW && an.FieldProv(x.X) == "Watcher.Events" {
-							recv = true
 						}
 					}
 				}
@@ -103,15 +130,29 @@ func resolveWatch(c *an.Ctx) *watchRoles {
 				continue
 			}
 			if wr.evLoop == nil || len(l.Blocks) < len(wr.evLoop.Blocks) {
-				wr.evLoop, wr.loopFn = l, f
+				wr.evLoop, wr.loopFn, wr.pollFn = l, f, via
 			}
 		}
 	}
 	if wr.evLoop != nil {
+		var blocks []*ssa.BasicBlock
 		for _, b := range wr.loopFn.Blocks {
-			if !wr.evLoop.Blocks[b] {
-				continue
+			if wr.evLoop.Blocks[b] {
+				blocks = append(blocks, b)
 			}
+		}
+		if wr.pollFn != nil {
+			for _, h := range sortedFns(func() map[*ssa.Function]bool {
+				m := map[*ssa.Function]bool{}
+				for h := range p.Reach([]*ssa.Function{wr.pollFn}, func(e an.CallEdge) bool { return e.Kind == an.EdgeCall && wr.inW(e.Callee) && !runsTask(e.Callee) }) {
+					m[h] = true
+				}
+				return m
+			}()) {
+				blocks = append(blocks, h.Blocks...)
+			}
+		}
+		for _, b := range blocks {
 			for _, in := range b.Instrs {
 				ci, ok := in.(ssa.CallInstruction)
 				if !ok {
@@ -306,7 +347,7 @@ func selection(c *an.Ctx, wr *watchRoles, rule string) {
 	var evP *ssa.Parameter
 	for _, f := range sortedFns(wr.scopeNew) {
 		an.EachInstr(f, func(in ssa.Instruction) {
-			if mu, ok := in.(*ssa.MapUpdate); ok && an.FieldProv(mu.Map) == "Watcher.events" {
+			if mu, ok := in.(*ssa.MapUpdate); ok && (an.FieldProv(mu.Map) == "Watcher.events" || eventMapsOf(p, wr)[an.Resolve(mu.Map)]) {
 				if prm := rangeElemOfParam(p, mu.Key, nw); prm != nil {
 					evP = prm
 				}
@@ -332,6 +373,49 @@ func selection(c *an.Ctx, wr *watchRoles, rule string) {
 		wiring(excP, "Exclude")
 		wiring(evP, "Events")
 	}
+	// the append calls whose result ends up in Watcher.paths
+	pathAppends := map[*ssa.Call]bool{}
+	for _, f := range sortedFns(wr.scopeNew) {
+		an.EachInstr(f, func(in ssa.Instruction) {
+			sto, ok := in.(*ssa.Store)
+			if !ok {
+				return
+			}
+			fa, ok := sto.Addr.(*ssa.FieldAddr)
+			if !ok || an.TypeField(fa) != "Watcher.paths" {
+				return
+			}
+			seen := map[ssa.Value]bool{}
+			var walk func(v ssa.Value, d int)
+			walk = func(v ssa.Value, d int) {
+				if d > 6 {
+					return
+				}
+				for _, src := range p.DeepSources(v, 3, false) {
+					if seen[src] {
+						continue
+					}
+					seen[src] = true
+					if call, ok := src.(*ssa.Call); ok {
+						if b, ok := call.Call.Value.(*ssa.Builtin); ok && b.Name() == "append" {
+							pathAppends[call] = true
+							walk(call.Call.Args[0], d+1)
+						}
+					}
+					if phi, ok := src.(*ssa.Phi); ok {
+						for _, e := range phi.Edges {
+							walk(e, d+1)
+						}
+					}
+				}
+			}
+			walk(sto.Val, 0)
+		})
+	}
+	if len(pathAppends) == 0 {
+		c.Bad(rule, an.Short(nw)+":paths", nw.Pos(), "nothing appended under NewWatcher ends up in the watcher's paths")
+		return
+	}
 	// table: matched=false for every exclude → appended once; matched=true → not appended
 	matched := extractOf(pm, 0)
 	for _, m := range []bool{false, true} {
@@ -356,29 +440,19 @@ func selection(c *an.Ctx, wr *watchRoles, rule string) {
 			if in == ssa.Instruction(pm) {
 				return "PathMatch"
 			}
-			sto, ok := in.(*ssa.Store)
-			if !ok {
-				return ""
-			}
-			fa, ok := sto.Addr.(*ssa.FieldAddr)
-			if !ok || an.TypeField(fa) != "Watcher.paths" {
-				return ""
-			}
-			for _, src := range an.Sources(sto.Val) {
-				call, ok := src.(*ssa.Call)
-				if !ok {
-					continue
-				}
-				if b, ok := call.Call.Value.(*ssa.Builtin); ok && b.Name() == "append" {
+			// the match is appended to the slice that becomes the watched paths (directly into the field, or
+			// into an accumulator a helper returns: pathAppends below ties the two together)
+			if call, ok := in.(*ssa.Call); ok {
+				if b, ok := call.Call.Value.(*ssa.Builtin); ok && b.Name() == "append" && pathAppends[call] {
 					for _, e := range an.VariadicElems(call.Call.Args[1]) {
-						if isMatch(e, st) {
+						if e != nil && isMatch(e, st) {
 							return "append(match)"
 						}
 					}
 					return "append(other)"
 				}
 			}
-			return "paths:=" + an.Prov(sto.Val)
+			return ""
 		}
 		outs := ex.Run(gf, lMatch.BodyEntry(), lMatch.Header, nil)
 		bad := ""
@@ -567,13 +641,27 @@ func registry(c *an.Ctx, wr *watchRoles, rule string) {
 	}
 	sort.Strings(diff)
 	c.Check(len(diff) == 0, rule, an.Short(nw)+":default-events", nw.Pos(), "with no events configured all event names are subscribed", fmt.Sprintf("the default event list differs from the names in %s: %v", tbl, diff))
-	// names are stored as given
+	// names are stored as given (into the field's map, or into a map that a helper builds and NewWatcher stores there)
+	eventMaps := map[ssa.Value]bool{}
+	for _, f := range sortedFns(wr.scopeNew) {
+		an.EachInstr(f, func(in ssa.Instruction) {
+			sto, ok := in.(*ssa.Store)
+			if !ok {
+				return
+			}
+			if fa, ok := sto.Addr.(*ssa.FieldAddr); ok && an.TypeField(fa) == "Watcher.events" {
+				for _, src := range p.DeepSources(sto.Val, 3, false) {
+					eventMaps[src] = true
+				}
+			}
+		})
+	}
 	okStore := false
 	for _, f := range sortedFns(wr.scopeNew) {
 		for _, l := range an.Loops(f) {
 			for b := range l.Blocks {
 				for _, in := range b.Instrs {
-					if mu, ok := in.(*ssa.MapUpdate); ok && an.FieldProv(mu.Map) == "Watcher.events" {
+					if mu, ok := in.(*ssa.MapUpdate); ok && (an.FieldProv(mu.Map) == "Watcher.events" || eventMaps[an.Resolve(mu.Map)]) {
 						_, elems := l.RangeKeyValue()
 						for _, e := range elems {
 							if an.SameValue(mu.Key, e) {
@@ -869,6 +957,9 @@ func serving(c *an.Ctx, wr *watchRoles, rule string) {
 					return nil
 				}()...) {
 					prov := an.FieldProv(g.Cond)
+					if closedOnly(p, wr, g.Cond, g.Outcome) {
+						ok, why = true, "channel closed (reported by the polling helper)"
+					}
 					switch {
 					case prov == "Watcher.isClosed" && g.Outcome:
 						ok, why = true, "watcher closed"
@@ -922,4 +1013,69 @@ func isRecvOK(v ssa.Value) bool {
 		return t.Op == token.ARROW && t.CommaOk
 	}
 	return false
+}
+
+// eventMapsOf lists the values that NewWatcher (or a helper) stores into Watcher.events.
+func eventMapsOf(p *an.Prog, wr *watchRoles) map[ssa.Value]bool {
+	out := map[ssa.Value]bool{}
+	for _, f := range sortedFns(wr.scopeNew) {
+		an.EachInstr(f, func(in ssa.Instruction) {
+			sto, ok := in.(*ssa.Store)
+			if !ok {
+				return
+			}
+			if fa, ok := sto.Addr.(*ssa.FieldAddr); ok && an.TypeField(fa) == "Watcher.events" {
+				for _, src := range p.DeepSources(sto.Val, 3, false) {
+					out[src] = true
+				}
+			}
+		})
+	}
+	return out
+}
+
+// closedOnly reports whether cond == outcome can only hold because a channel
+// was closed: cond is (the negation of) the bool result of a helper of the
+// package, and every return of that helper with the matching constant is
+// guarded by a failed receive (`v, ok := <-ch; !ok`).
+func closedOnly(p *an.Prog, wr *watchRoles, cond ssa.Value, outcome bool) bool {
+	for {
+		u, ok := cond.(*ssa.UnOp)
+		if !ok || u.Op != token.NOT {
+			break
+		}
+		cond, outcome = u.X, !outcome
+	}
+	call, ok := cond.(*ssa.Call)
+	if !ok {
+		return false
+	}
+	callee := call.Call.StaticCallee()
+	if callee == nil || !wr.inW(callee) || callee.Blocks == nil {
+		return false
+	}
+	n := 0
+	for _, ret := range an.Returns(callee) {
+		if len(ret.Results) != 1 {
+			return false
+		}
+		k, isK := an.RetVal(ret, 0).(*ssa.Const)
+		if !isK || k.Value == nil {
+			return false
+		}
+		if (k.Value.ExactString() == "true") != outcome {
+			continue
+		}
+		n++
+		guarded := false
+		for _, g := range an.Guards(ret.Block()) {
+			if isRecvOK(g.Cond) && !g.Outcome {
+				guarded = true
+			}
+		}
+		if !guarded {
+			return false
+		}
+	}
+	return n > 0
 }
